@@ -6,7 +6,8 @@ CONSTANTS
   Seat <- Seat4
   MaxRounds = 2
   MaxReqs = 2
-  MaxDeliver = 2
+  MaxDkgDeliver = 2
+  MaxRelayDeliver = 2
   MaxBad = 1
   MaxStops = 2
   MaxViewMis = 2
